@@ -9,6 +9,7 @@ watchdog.  A schedule is a string over
     E  release one producer step that raises
     F  release one producer step that finishes
     C  consume one item (next())
+    S  (ping class only) the consumer stalls for five ping intervals
     X  close the iterable (server closes the response); the close may need one further producer
        step (the symbol after X, default P) before it can return
 
@@ -38,6 +39,11 @@ def feasible(schedule: str, ping_mode: bool = False) -> bool:
     for i, s in enumerate(schedule):
         if pending and s not in "PEF":
             return False
+        if s == "S":
+            # (ping class) the consumer stalls for several ping intervals; nothing else changes
+            if not ping_mode or closed:
+                return False
+            continue
         if s == "c":
             # next() issued while nothing is available: the consumer waits inside the response
             if closed or finished or c != p:
@@ -235,7 +241,9 @@ def run_schedule(schedule: str, ping_interval: float = 30.0, watchdog: float = 5
     try:
         while i < len(schedule):
             s = schedule[i]
-            if s == "c":
+            if s == "S":
+                time.sleep(max(0.05, 5 * ping_interval))
+            elif s == "c":
                 started = True
                 pending = True
                 r.cmds.put("next")
